@@ -53,11 +53,17 @@ def confirm(wt: Path, mdir: Path, sid: str) -> int:
             [PY, "-m", "pytest", "-q", "-p", "no:cacheprovider", "--timeout=900", "--continue-on-collection-errors", "-x", "tests"],
             cwd=wt, env={"PYTHONPATH": f"{wt}/src"},
         )
-        tail = outt.strip().splitlines()[-1] if outt.strip() else ""
+        import re
+
+        m = re.findall(r"(\d+) passed[^\n]*", outt)
+        tail = (m[-1] + " passed") if m else (outt.strip().splitlines()[-1] if outt.strip() else "")
+        mm = re.search(r"=+ (.*passed.*) =+", outt)
+        if mm:
+            tail = mm.group(1)
         print(f"[patched] test suite rc={rct}: {tail}")
     finally:
         sh("git checkout -- src tests", cwd=wt)
-    ok = rc0 == 0 and rc1 != 0 and rct == 0 and "332 passed" in tail
+    ok = rc0 == 0 and rc1 != 0 and rct == 0 and "332 passed" in tail and "failed" not in tail
     print("CONFIRMED" if ok else "NOT CONFIRMED")
     if ok:
         dst = V / "seeded" / sid
